@@ -32,7 +32,7 @@ def main():
     ap = argparse.ArgumentParser()
     ap.add_argument("--seeds"); ap.add_argument("--props"); ap.add_argument("--par", type=int, default=4); ap.add_argument("--jobs", type=int, default=4)
     a = ap.parse_args()
-    seeds = a.seeds.split(",") if a.seeds else sorted(x for x in os.listdir(os.path.join(HERE, "seeded")) if os.path.isdir(os.path.join(HERE, "seeded", x)))
+    seeds = a.seeds.split(",") if a.seeds else sorted(x for x in os.listdir(os.path.join(HERE, "seeded")) if os.path.isdir(os.path.join(HERE, "seeded", x)) and not x.startswith("_"))
     props = a.props.split(",") if a.props else sorted(PROPS)
     path = os.path.join(HERE, "seeded", "matrix.json")
     matrix = json.load(open(path)) if os.path.exists(path) else {}
